@@ -75,7 +75,12 @@ def builtin_generators(ctx, rng, nmax: int) -> Iterator[Tuple[str, Callable]]:
 
             yield f"Series({uname}, nser={n})", thunk
         yield f"MosStack(nser={n})", (lambda n=n: h.to_proto(MosStack(nser=n)))
-    yield "CmDmGen", lambda: h.to_proto(CmDmGen())
+    from hdl21.generators import AcDc
+    from hdl21.prefix import UNIT, m as _milli
+
+    # (CmDmGen() with default parameters cannot be called at all on this tree: AcDc's int defaults are rejected by its own
+    #  Prefixed-typed fields; that is outside the 19 properties, so explicit values are given)
+    yield "CmDmGen", lambda: h.to_proto(CmDmGen(cm=AcDc(ac=0 * UNIT, dc=900 * _milli), dm=AcDc(ac=1 * UNIT, dc=0 * UNIT)))
     yield "Balun", lambda: h.to_proto(Balun())
     for uname, mk, _ in units:
         def wthunk(mk=mk):
@@ -221,6 +226,32 @@ def exec_defined(ctx, rng, n: int) -> Iterator[Tuple[str, Callable]]:
                     return h.to_proto(top, domain=pdom) if pdom is not None else h.to_proto(top)
 
                 yield f"exec-defined #{k} ext-domain={dom!r} package-domain={pdom!r}", thunk
+
+
+def equal_valued_params(ctx, rng, n: int) -> Iterator[Tuple[str, Callable]]:
+    """One design holding several instances of one primitive / external module whose parameters are numerically equal but
+    written differently (1*K, 1000, "1e3"; m=2 and m=2.0): every instance keeps its own spelling."""
+    import hdl21 as h
+    from decimal import Decimal
+    from hdl21.prefix import K, m as milli, UNIT
+
+    spell = [1 * K, 1000, "1e3", Decimal("1000.0"), 1000.0, h.Prefixed(number=Decimal("1000"), prefix=UNIT), 1000000 * milli, Decimal("1E+3")]
+    em = h.ExternalModule(name="EqVal", domain="hvlib", port_list=[h.Inout(name="p"), h.Inout(name="n")], paramtype=dict)
+    emspell = [{"m": 2, "x": 0.5}, {"m": 2.0, "x": 500 * milli}, {"m": 2 * UNIT, "x": "0.5"}, {"m": True, "x": Decimal("0.50")}]
+    for k in range(n):
+        def thunk(k=k):
+            order = list(spell)
+            random_order = rng.sample(order, len(order))
+            t = h.Module(name=f"Eq{next(_uid)}")
+            a, b = t.add(h.Signal(), name="a"), t.add(h.Signal(), name="b")
+            for j, v in enumerate(random_order):
+                t.add(h.R(r=v)(p=a, n=b), name=f"r{j}")
+                t.add(h.C(c=v)(p=a, n=b), name=f"c{j}")
+            for j, pv in enumerate(rng.sample(emspell, len(emspell))):
+                t.add(em(dict(pv))(p=a, n=b), name=f"x{j}")
+            return h.to_proto(t)
+
+        yield f"equal-valued parameters #{k}", thunk
 
 
 def conflicting_externals(ctx, rng, n: int) -> Iterator[Tuple[str, Callable]]:
